@@ -706,7 +706,9 @@ fn c17_a_worker_no_items() {
 /// `Clone` does not count the new handle in `State::senders` (see notes/wE.md).
 #[test]
 fn c17_wclone_worker_cloned_senders() {
+    // three loom threads: bound 2 in both tiers (bound 3 is > 67 000 executions)
     let scn = Scenario::new("c17_wclone_worker_cloned_senders", module_path!(), "c17.worker.clone")
+        .bounds(2, 2)
         .cfg("senders", 2u64)
         .cfg("shape", "s1: submit(1), drop || s2 = s1.clone(): submit(2), drop || acquire until None");
     sup::run(scn, || {
